@@ -169,7 +169,10 @@ def c09_run(inp):
             dict(base, mpc_lim=0.0, mpd_lim=0.02, cov_max=10.0), dict(base, xi_max=0.012, mpc_lim=0.0, mpd_lim=1.5, cov_max=10.0),
             # the ends of the ranges: no damping limit, no shape limits (negative damping can only be removed by the damping step itself;
             # with the correlogram estimator and short segments the window correction produces such poles)
-            dict(base, xi_max=1.0, mpc_lim=0.0, mpd_lim=10.0, cov_max=10.0, conj=False)]
+            dict(base, xi_max=1.0, mpc_lim=0.0, mpd_lim=10.0, cov_max=10.0, conj=False),
+            # ... and the other end: the legal boundary values mpd_lim = 0 (only shapes with no phase scatter at all survive) and mpc_lim = 1
+            dict(base, xi_max=1.0, mpc_lim=0.0, mpd_lim=0.0, cov_max=10.0, conj=False),
+            dict(base, xi_max=1.0, mpc_lim=1.0, mpd_lim=10.0, cov_max=10.0, conj=False)]
     found = []
     tried = 0
     for hc in sets:
@@ -354,6 +357,9 @@ def c10_fn(inp):
             rng = np.random.RandomState(seed)
             if seed % 3 == 0:     # first column mirrors the last one (a persistent mode seen at the first order)
                 Fn[:, 0], Xi[:, 0], Phi[:, 0] = Fn[:, -1], Xi[:, -1], Phi[:, -1]
+            if seed % 4 == 1:     # an order without a single retained pole in the middle of the range (the hard criteria may empty one):
+                cmid = n_cols // 2         # the poles of the next order have nothing to be compared with
+                Fn[:, cmid], Xi[:, cmid], Phi[:, cmid] = np.nan, np.nan, np.nan
             for ordmin in (0, 1, 2):
                 tables.append((f"crafted seed={seed} shape=({n_rows},{n_cols}) ordmin={ordmin}", Fn, Xi, Phi, ordmin,
                                n_cols - 1 - (seed % 2), 0.01, 0.05, 0.03))
@@ -452,8 +458,10 @@ def c16_dialog(inp):
     from pyoma2.support.sel_from_plot import SelFromPlot
     plot = inp.get("plot", "SSI")
     rng = np.random.RandomState(5)
-    Fn = np.array([[np.nan, 2.0, 2.01, 5.0, 1.0],
-                   [np.nan, 5.1, np.nan, 2.02, 5.05],
+    # a perfectly stabilised pole has the bit-identical frequency at several orders (2.0 at orders 1 and 2, 5.0 at orders 3 and 4): a
+    # frequency does not determine its order
+    Fn = np.array([[np.nan, 2.0, 2.0, 5.0, 1.0],
+                   [np.nan, 5.1, np.nan, 2.02, 5.0],
                    [np.nan, np.nan, 8.0, 7.9, 2.03]])
     freq = np.linspace(0, 10, 41)
 
@@ -476,7 +484,7 @@ def c16_dialog(inp):
         o.plot_svPSD = lambda *a, **k: None
         return o
     ev = lambda b, x, y: types.SimpleNamespace(button=b, xdata=x, ydata=y, key="shift")     # noqa: E731
-    picks = [(5.02, 3.2), (2.0, 1.1), (1.2, 3.9), (7.0, 2.6)]
+    picks = [(5.02, 3.2), (2.0, 1.1), (1.2, 3.9), (7.0, 2.6), (2.0, 2.2), (5.0, 4.1)]
     acts = [("pick", p) for p in picks] + [("desel_one", None), ("desel_near", 2.3), ("desel_near", 6.0), ("noshift_pick", picks[0])]
 
     def model_pick(x, y):
@@ -1056,17 +1064,23 @@ def c06_fdd(inp):
         G = rng.randn(nr, nc, nf) + 1j * rng.randn(nr, nc, nf)
         if trial % 2 == 0 and nr == nc:          # Hermitian PSD (full spectrum); otherwise a half-spectrum-like general matrix
             G = np.einsum("ikf,jkf->ijf", G, G.conj())
+        # the unit of the data is arbitrary: spectra of micro-unit records (entries ~1e-11) and of large-unit records decompose like any other
+        amp = (1.0, 1e-11, 1e7)[(trial // 6) % 3]
         try:
-            S_val, S_vec = fdd.SD_svalsvec(G.copy())
+            S_val, S_vec = fdd.SD_svalsvec((G * amp).copy())
         except Exception as e:      # noqa: BLE001
             return {"reproduced": True, "detail": f"SD_svalsvec raised {type(e).__name__}: {e}"}
         for f_ in range(nf):
             sv_true = np.sqrt(np.clip(np.sort(np.linalg.eigvalsh(G[:, :, f_] @ G[:, :, f_].conj().T))[::-1][:nc], 0, None))
             got = np.diag(S_val[:, :, f_])
+            if amp != 1.0 and not np.allclose(got / amp, sv_true, rtol=1e-6, atol=1e-9):
+                got = got / np.sqrt(amp)        # stored as square roots
+            elif amp != 1.0:
+                got = got / amp
             cand = [got, got ** 2]
             if not any(np.allclose(c_, sv_true, rtol=1e-6, atol=1e-9) for c_ in cand) or np.any(np.diff(got) > 1e-9) or np.any(got < -1e-12):
                 return {"reproduced": True, "detail": f"SD_svalsvec: stored values at line {f_} are not the (square roots of the) singular values of the "
-                                                      f"{'Hermitian' if trial % 2 == 0 and nr == nc else 'general'} {nr}x{nc} spectral matrix: {np.round(got, 4).tolist()} vs sqrt-sv {np.round(np.sqrt(sv_true), 4).tolist()}"}
+                                                      f"{'Hermitian' if trial % 2 == 0 and nr == nc else 'general'} {nr}x{nc} spectral matrix (entries scaled by {amp:g}): {np.round(got, 4).tolist()} vs sqrt-sv {np.round(np.sqrt(sv_true), 4).tolist()}"}
             U = S_vec[:, :, f_].conj().T
             if not np.allclose(U.conj().T @ U, np.eye(nr), atol=1e-8):
                 return {"reproduced": True, "detail": "SD_svalsvec: stored vectors are not unitary"}
